@@ -48,6 +48,7 @@ func pathString(p []step) string {
 // fault kinds on stored objects
 const (
 	fDelete    = "delete-attribute"
+	fDeleteAll = "delete-attribute-and-its-type" // gone from Attrs and from the object's own AttrTypes
 	fWrongType = "wrong-typed-value"
 	fNilIface  = "nil-interface-value"
 	fNilAttrs  = "nil-attrs-container"
@@ -100,17 +101,18 @@ func objectFaults(n *spec.Node, o types.Object, path []step, injected map[string
 		if e == nil {
 			if injected[name] {
 				// attributes the converters never touch: corrupting them must go unnoticed
-				*out = append(*out, fault{kind: fDelete, path: p}, fault{kind: fNilIface, path: p})
+				*out = append(*out, fault{kind: fDelete, path: p}, fault{kind: fDeleteAll, path: p}, fault{kind: fNilIface, path: p})
 			}
 			continue
 		}
 		if e.Placeholder {
 			// the placeholder of an empty message is never read
-			*out = append(*out, fault{kind: fDelete, path: p}, fault{kind: fWrongType, path: p})
+			*out = append(*out, fault{kind: fDelete, path: p}, fault{kind: fDeleteAll, path: p}, fault{kind: fWrongType, path: p})
 			continue
 		}
 		*out = append(*out,
 			fault{kind: fDelete, path: p, expect: entryDiag(e, false), entry: e},
+			fault{kind: fDeleteAll, path: p, expect: entryDiag(e, false), entry: e},
 			fault{kind: fWrongType, path: p, expect: entryDiag(e, true), entry: e},
 			fault{kind: fNilIface, path: p, expect: entryDiag(e, true), entry: e})
 		switch x := v.(type) {
@@ -192,8 +194,18 @@ func applyFault(v attr.Value, path []step, kind string) attr.Value {
 		for k, a := range x.Attrs {
 			c.Attrs[k] = a
 		}
-		if len(path) == 1 && kind == fDelete {
+		if len(path) == 1 && (kind == fDelete || kind == fDeleteAll) {
 			delete(c.Attrs, s.attr)
+			if kind == fDeleteAll {
+				// the type maps are shared between values: remove from a copy
+				at := make(map[string]attr.Type, len(x.AttrTypes))
+				for k, a := range x.AttrTypes {
+					if k != s.attr {
+						at[k] = a
+					}
+				}
+				c.AttrTypes = at
+			}
 			return c
 		}
 		c.Attrs[s.attr] = applyFault(x.Attrs[s.attr], path[1:], kind)
